@@ -48,6 +48,10 @@ class C09(C06):
             return
         if s.exact and s.units[0].type in (C.HEADERS, C.PUSH_PROMISE):
             pre = s.pre[0]
-            if pre is None or pre.state == 'closed':
+            u = s.units[0]
+            repromise = u.type == C.PUSH_PROMISE and (not u.promised or u.promised % 2 or u.promised <= s.snap['hi_peer'])
+            if pre is None or pre.state == 'closed' or repromise:
                 self.nontrivial = True
+                if repromise:
+                    self.probe('promise_of_used_id')
                 return C06.on_step(self, w, s)
